@@ -193,7 +193,7 @@ func (c *compiler) mangledNameDecl(decl ast.Declaration) string {
 		if ast.IsGenericInstantiation(decl) {
 			declName += "_generic_"
 			for _, p := range decl.Parameters {
-				declName += strings.ReplaceAll(p.Type.Type.String(), " ", "_")
+				declName += c.instantiationTypeName(p.Type.Type)
 			}
 		}
 	case *ast.VarDecl:
@@ -207,6 +207,22 @@ func (c *compiler) mangledNameDecl(decl ast.Declaration) string {
 	mangledName := mangledNameBase(declName, decl.Module())
 	mangledNamesCacheDecl.Store(decl, mangledName)
 	return mangledName
+}
+
+// returns the name of a parameter type in the mangled name of a generic instantiation
+//
+// instantiations are distinguished up to type aliases (ddptypes.Equal),
+// and two modules may declare different types with the same name,
+// so declared types are named together with their module
+func (c *compiler) instantiationTypeName(t ddptypes.Type) string {
+	t = ddptypes.GetUnderlying(t)
+	if listType, isList := t.(ddptypes.ListType); isList {
+		return c.instantiationTypeName(listType.ElementType) + "_Liste"
+	}
+	if _, isDeclared := c.typeMap[t]; isDeclared {
+		return c.mangledNameType(t)
+	}
+	return strings.ReplaceAll(t.String(), " ", "_")
 }
 
 // returns the mangled name of a struct type
